@@ -310,11 +310,23 @@ def theorem_at(file_rel, line):
 # Rust harness / OCaml drivers
 # --------------------------------------------------------------------------
 def cargo_build(crate, bins=None, hooks=True, release=False, timeout=3000):
-    """Build harness crate `crate` (dir under /verif/harness) against /repo's working tree."""
+    """Build harness crate `crate` (dir under /verif/harness) against the repository's working tree.
+    With VERIF_REPO=<other checkout> (mutation self-tests in a private worktree) a copy of the harness crate with its path
+    dependencies redirected to that checkout is built in a separate target directory."""
     cdir = os.path.join(VERIF, "harness", crate)
     tdir = os.path.join(CACHE, "target", crate)
+    if os.path.realpath(REPO) != "/repo":
+        tag = hashlib.sha256(os.path.realpath(REPO).encode()).hexdigest()[:10]
+        alt = os.path.join(CACHE, "alt", tag, crate)
+        if os.path.exists(alt):
+            shutil.rmtree(alt)
+        shutil.copytree(cdir, alt, ignore=shutil.ignore_patterns("target", "Cargo.lock"))
+        ct = os.path.join(alt, "Cargo.toml")
+        open(ct, "w").write(open(ct).read().replace('"/repo/', '"' + os.path.realpath(REPO) + '/'))
+        cdir = alt
+        tdir = os.path.join(CACHE, "alt", tag, "target-" + crate)
     os.makedirs(tdir, exist_ok=True)
-    with flock("cargo-" + crate):
+    with flock("cargo-" + crate + ("" if os.path.realpath(REPO) == "/repo" else "-" + os.path.basename(os.path.dirname(cdir)))):
         lock_src = os.path.join(REPO, "Cargo.lock")
         lock_dst = os.path.join(cdir, "Cargo.lock")
         if not os.path.exists(lock_dst):
@@ -405,6 +417,8 @@ class Check:
         self.obligations = 0
         self.discharged = 0
         self.broken = []       # names of theorems / correspondences that no longer check
+        if not self.replay:
+            shutil.rmtree(os.path.join(VERIF, "replay", self.pid), ignore_errors=True)
 
     # -- evidence ---------------------------------------------------------
     def sample(self, x, cap=6):
